@@ -135,7 +135,11 @@ func drawUL(t *rapid.T, kind string) *ulArgs {
 		case 1:
 			a.DNN = "" // constructor omits the IE
 		default:
-			a.DNN = rapid.StringMatching(`[a-z0-9-]{1,63}`).Draw(t, "dnn")
+			// one label, or several, upper and lower case (a DNN is compared as it is written; it is not the codec's
+			// business to fold it), with or without an operator identifier behind the network identifier
+			a.DNN = rapid.OneOf(rapid.StringMatching(`[a-z0-9-]{1,63}`), rapid.StringMatching(`[A-Za-z0-9-]{1,20}`),
+				rapid.StringMatching(`[A-Za-z][A-Za-z0-9-]{0,8}(\.[A-Za-z0-9][A-Za-z0-9-]{0,8}){1,3}`),
+				rapid.StringMatching(`[A-Za-z0-9]{1,12}\.mnc[0-9]{3}\.mcc[0-9]{3}\.gprs`)).Draw(t, "dnn")
 		}
 		a.SST = rapid.Uint8().Draw(t, "sst")
 		if rapid.IntRange(0, 7).Draw(t, "sd_absent") == 0 {
